@@ -3,6 +3,7 @@ import Ptn.C15.Lemmas
 import Ptn.C15.Sem
 import Ptn.C15.Kron
 import Ptn.C15.Denote
+import Ptn.C15.Flow
 /-! Property theorems for C15. Only property theorems and non-vacuity examples live here.
 
   `generateLindbladian` is the literal port of `generate_lindbladian` (tied to `/repo` by the
@@ -301,6 +302,20 @@ theorem gksl_trace_preserving (H : Matrix K K ℂ) (js : List (ℂ × Matrix K K
     intro j _
     congr 1
     ring
+
+/-- **The GKSL flow preserves the trace.**  For every Hamiltonian, every list of jump operators with
+    rates, and every (complex) time `t`: the trace functional is a fixed row vector of `exp(−i t 𝓛)`, so
+    `tr ρ(t) = tr ρ` for every matrix `ρ` — the statement of the property about `exp(−i t 𝓛)` itself, not
+    only about the generator (`gksl_trace_preserving`).  The matrix exponential is Mathlib's. -/
+theorem gksl_flow_trace_preserving (H : Matrix K K ℂ) (js : List (ℂ × Matrix K K ℂ)) (t : ℂ) :
+    trVec ᵥ* NormedSpace.exp ((-Complex.I * t) • gkslMat H js) = trVec ∧
+    ∀ ρ : Matrix K K ℂ,
+      trVec ⬝ᵥ (NormedSpace.exp ((-Complex.I * t) • gkslMat H js) *ᵥ vec ρ) = trVec ⬝ᵥ vec ρ := by
+  have h0 : trVec ᵥ* ((-Complex.I * t) • gkslMat H js) = 0 := by
+    rw [Matrix.vecMul_smul, (gksl_trace_preserving H js).1, smul_zero]
+  have h1 := vecMul_exp_of_vecMul_eq_zero _ _ h0
+  refine ⟨h1, fun ρ => ?_⟩
+  rw [Matrix.dotProduct_mulVec, h1]
 
 /-- Concrete witness: one qubit, `H = 0`, one jump operator `σ₋ = [[0,1],[0,0]]` with rate 1 — the
     generated generator does not annihilate the trace functional (entry `(1,1)` is `i`), whereas
